@@ -350,7 +350,7 @@ def check_feature(feat, idx):
     errors = list()
     if not feat.id:
         errors.append("feature {}: {}".format(idx, ValidationError.NoID))
-    if feat.created_at is None:
+    if feat._h5group.get_attr("created_at") is None:
         errors.append("feature {}: {}".format(idx, ValidationError.NoDate))
     if not feat.data:
         errors.append("feature {}: {}".format(idx, ValidationError.NoData))
@@ -468,7 +468,7 @@ def check_entity(entity):
         errors.append(ValidationError.NoID)
     if not entity.name:
         errors.append(ValidationError.NoName)
-    if entity.created_at is None:
+    if entity._h5group.get_attr("created_at") is None:
         errors.append(ValidationError.NoDate)
     return errors
 
